@@ -84,12 +84,12 @@ for _p in ('C02', 'C03'):
     )
 
 PROPS['C09'] = dict(
-    level='exploration', builds={'dl': dict(pkg='./cmd/dl', overlay='shim'), 'dl_race': dict(pkg='./cmd/dl', overlay='shim', race=True)},
+    level='exploration', builds={'dl': dict(pkg='./cmd/dl', overlay='shim'), 'dl_race': dict(pkg='./cmd/dl', overlay='shim', race=True), 'dlsched': dict(pkg='./cmd/dlsched', overlay='yield')},
     stages=[dict(name='fake', bin='dl', args=['-mode', 'fake'], shards=shards(4, 16), par=16, crash_is_violation=True, crash_key='deadline:crash'),
             dict(name='real@timer1', bin='dl_race', args=['-mode', 'real'], shards=shards(2, 6), par=6, env={'GODEBUG': 'asynctimerchan=1'}, crash_is_violation=True, crash_key='deadline:crash', replay='rerun'),
             dict(name='real@timer0', bin='dl_race', args=['-mode', 'real'], shards=shards(2, 6), par=6, env={'GODEBUG': 'asynctimerchan=0'}, crash_is_violation=True, crash_key='deadline:crash', replay='rerun')],
     replay_stage='fake',
-    need_counters=['stop_false_paths', 'stop_true_paths', 'real_sets', 'real_near_expiries_observed'],
+    need_counters=['stop_false_paths', 'stop_true_paths', 'real_sets', 'real_near_expiries_observed', 'sched_dfs_schedules'],
 )
 
 import os as _os
@@ -119,6 +119,7 @@ PROPS['C17'] = dict(
                  crash_is_violation=True, crash_key='ctxio:crash', timeout=1800, replay='rerun') for m in (1, 0)],
     need_counters=['reads_cancelled', 'writes_cancelled', 'reads_probe', 'writes_probe', 'stream_bytes', 'datagrams', 'probes_checked', 'dfs_schedules'],
 )
+PROPS['C09']['stages'].append(dict(name='sched', bin='dlsched', shards=shards(5, 10), par=10, timeout=900, env={'GOMAXPROCS': '2'}, crash_is_violation=True, crash_key='deadline:crash'))
 PROPS['C17']['stages'].append(dict(name='sched', bin='ctxsched', shards=shards(4, 8), par=8, timeout=1800, group='gsched'))
 PROPS['C17']['replay_stage'] = 'ctxio@timer1'
 
